@@ -53,7 +53,11 @@ impl SyncVecRd {
         F: Fn(&mut usize) -> bool,
     {
         let (lock, cvar) = &*self.decoded;
+        #[cfg(jubako_verif)]
+        crate::verif::point("rd.wait", 0, self.total_size as u64);
         let decoded = cvar.wait_while(lock.lock().unwrap(), function).unwrap();
+        #[cfg(jubako_verif)]
+        crate::verif::point("rd.woke", *decoded as u64, self.total_size as u64);
         *decoded
     }
 
@@ -71,6 +75,8 @@ impl SyncVecRd {
     #[inline]
     fn slice(&self) -> &[u8] {
         let size = self.current_size();
+        #[cfg(jubako_verif)]
+        crate::verif::point("rd.slice", size as u64, self.total_size as u64);
         unsafe { std::slice::from_raw_parts(self.buffer, size) }
     }
 }
@@ -117,10 +123,17 @@ fn decode_to_end<T: Read + Send>(
             .by_ref()
             .take(size as u64)
             .read_to_end(&mut buffer.data)?;
+        #[cfg(jubako_verif)]
+        crate::verif::point("dec.pre_publish", uncompressed as u64, total_size as u64);
         let (lock, cvar) = &*buffer.decoded;
         let mut decoded = lock.lock().unwrap();
         *decoded = uncompressed;
         cvar.notify_all();
+        #[cfg(jubako_verif)]
+        {
+            drop(decoded);
+            crate::verif::point("dec.post_publish", uncompressed as u64, total_size as u64);
+        }
     }
     //println!("Decompress done");
     Ok(())
